@@ -27,7 +27,8 @@ IsTie(n, d) == LET q == FloorDiv(n, d) IN 2 * (n - q * d) = d
 DecodeInt(g, mn, mx, unit, rule) ==
   LET r == RoundHalfEven(Num(g, mn, mx), Den(unit))
       lo == CeilDiv(mn, unit)  hi == FloorDiv(mx, unit)
-  IN IF rule = "round_clamp" /\ lo <= hi THEN (IF r < lo THEN lo ELSE IF r > hi THEN hi ELSE r) ELSE r
+      m == IF r > hi THEN hi ELSE r                              \* max(ceil(min), min(floor(max), r))
+  IN IF rule = "round_clamp" THEN (IF m < lo THEN lo ELSE m) ELSE r
 
 \* decoded value as a rational <<num, den>> (not normalised; den > 0)
 Decode(typ, g, mn, mx, unit, rule) ==
